@@ -13,7 +13,10 @@
    cancellation nor the deadline of the producer's context reaches the export: a context cancelled before or after the
    enqueue does not cancel the export.  TimeoutConfig.Validate rejects exactly the negative timeouts.",
  "quantifier": "for every sequence of requests (each with its own trace/span context: sampled, unsampled or none; optional
-   caller deadline, earlier or later than T; optional cancellation before / after the enqueue), every configuration (queue
+   caller deadline, earlier or later than T; optional cancellation before / after the enqueue; also requests whose context is
+   the one an UPSTREAM exporter helper handed to its export function for a merged batch -- no span context, the links to the
+   upstream requests registered in it --, as happens when an exporter feeds other exporters and traces level is none), every
+   configuration (queue
    none / memory / memory+wait_for_result / persistent, batching off / on with sizes that merge, split, merge+split, the
    deprecated WithBatcher option, timeout 0 / T, retry on / off with failing attempts, no-op or SDK tracer), every attempt",
  "anchors": {"files": ["exporter/exporterhelper/internal/queuebatch/batch_context.go",
@@ -41,14 +44,23 @@ from the model with the clauses intact is reported as MODEL-DRIFT, never as a fi
   open;  S5 persistent queue: nothing documented about context propagation (code: context.Background()), link clauses do
   not apply;  S6 no queue: a cancelled caller context is simply passed on.
 
+FINDING E03-links-alias (open, extras/known_findings.json, proposed repair extras/fixes/E03-links-alias.patch): for requests
+whose context carries the links of an upstream batch, contextWithMergedLinks appends INTO the array of the links slice stored
+in the held batch's context; a second merge that starts from the same upstream context overwrites the link the first merge
+registered -- also in a batch that is already being exported.  TLC finds it as a counterexample of the design with the model
+of the tree as it is (Variant "alias"); those counterexamples are replayed on the real code (directed scripts).
+
 Spec: specs/ExportContext (ExportContextObs = clauses, ExportContext = implementation-shaped model reusing
 specs/Batcher/BatcherSplit.tla, ExportContextMC, ExportContextGen, ExportContextTrace).
 Binding: harness/exportctx (real exporterhelper.NewLogs + WithQueue / WithBatcher / WithTimeout / WithRetry; the export
 function reads queuebatch.LinksFromContext, the span context / exporter span, ctx.Deadline(), ctx.Err()).
   1. TLC exhaustive design check (ExportContextMC) of the four clauses + two model facts; three deliberately wrong model
-     variants (no detach, shared deadline, merge drops the held batch's links) must be REFUTED with the expected clause.
-  2. TLC generates scripts (behaviours of the model, -simulate, seeded) per configuration; driver-level variants (SDK
-     tracer, WithBatcher, hold time) are derived; every script runs on the real code.
+     variants (no detach, shared deadline, merge drops the held batch's links) must be REFUTED with the expected clause; the
+     model of the tree as it is for contexts that carry links (Variant "alias") must satisfy everything with LinksComplete
+     in the form Inv \/ KnownAlias and be REFUTED with strict LinksComplete.
+  2. TLC generates scripts (behaviours of the model, -simulate, seeded) per configuration, and -- exhaustively, Variant
+     "alias" -- the behaviours that break LinksComplete (directed scripts); driver-level variants (SDK tracer, WithBatcher,
+     hold time, driver-placed failing attempts) are derived; every script runs on the real code.
   3. ExportContextTrace: every recorded trace is judged against the clauses (VIOL lines) and TLC searches for an
      explanation as a behaviour of the model (timer / consumer steps are not logged).  Deadline clauses are exact
      inequalities between monotonic clock readings (no slack), so they do not depend on the load of the machine.
@@ -66,6 +78,8 @@ DL_MS = {0: 0, 2: 10000, 8: 100000}            # caller deadline classes: none, 
 
 def rec(d):
     def v(x):
+        if isinstance(x, (list, tuple)):
+            return "<<" + ", ".join(v(y) for y in x) + ">>"
         if isinstance(x, bool):
             return "TRUE" if x else "FALSE"
         if isinstance(x, int):
@@ -78,8 +92,11 @@ def mcfg(queue, batch=False, mn=0, mx=0, timeout=T_MODEL, retry=False, enq=False
     return dict(queue=queue, batch=batch, min=mn, max=mx, timeout=timeout, retry=retry, enq=enq)
 
 
+UP = ["u1", "u2", "u3"]      # the requests an upstream exporter merged into the batch whose context "chain" requests carry
+
+
 def attrs(ns, scs, dls, cancels):
-    return [dict(n=n, sc=sc, dl=dl, cancel=ca) for n in ns for sc in scs for dl in dls for ca in cancels]
+    return [dict(n=n, sc=sc, dl=dl, cancel=ca, up=UP if sc == "chain" else []) for n in ns for sc in scs for dl in dls for ca in cancels]
 
 
 def params(reqs, cfgs, atts, maxnow=0, outs=("ok", "transient")):
@@ -105,9 +122,11 @@ INVARIANT InvNotCancelled
 %sCHECK_DEADLOCK FALSE
 """
 FACTS = "INVARIANT ExactOrigins\nINVARIANT SingleKeepsParent\n"
-MENU3 = [dict(n=1, sc="span", dl=0, cancel="post"), dict(n=2, sc="none", dl=2, cancel="no"), dict(n=3, sc="unsampled", dl=8, cancel="pre")]
-MENU_CHAIN = [dict(n=1, sc="span", dl=0, cancel="post"), dict(n=2, sc="unsampled", dl=2, cancel="no"), dict(n=2, sc="none", dl=0, cancel="no")]
-MENU2 = [dict(n=2, sc="span", dl=2, cancel="post"), dict(n=3, sc="unsampled", dl=0, cancel="pre")]
+MENU3 = [dict(n=1, sc="span", dl=0, cancel="post", up=[]), dict(n=2, sc="none", dl=2, cancel="no", up=[]), dict(n=3, sc="unsampled", dl=8, cancel="pre", up=[])]
+MENU_CHAIN = [dict(n=1, sc="span", dl=0, cancel="post", up=[]), dict(n=2, sc="unsampled", dl=2, cancel="no", up=[]), dict(n=2, sc="none", dl=0, cancel="no", up=[])]
+MENU2 = [dict(n=2, sc="span", dl=2, cancel="post", up=[]), dict(n=3, sc="unsampled", dl=0, cancel="pre", up=[])]
+# contexts that carry the links of an upstream batch (finding E03-links-alias)
+MENU_UP = [dict(n=1, sc="chain", dl=0, cancel="no", up=UP), dict(n=1, sc="span", dl=0, cancel="no", up=[]), dict(n=2, sc="chain", dl=2, cancel="post", up=UP)]
 
 
 def design(c):
@@ -126,24 +145,38 @@ def design(c):
         runs += [("three_requests_mem", R3, [mcfg("memory", True, 2, 3, T_MODEL, True)], MENU3, 1, 2),
                  ("three_requests_wfr", R3, [mcfg("wfr", True, 3, 4, T_MODEL, True), mcfg("memory", True, 2, 0, 0, True, True)], MENU3, 1, 2),
                  ("three_requests_sync", R3, [mcfg("none", False, 0, 0, T_MODEL, True), mcfg("memory", False, 0, 0, T_MODEL, True)], MENU3, 2, 2)]
+    # request contexts that carry the links of an upstream batch ("chain"): the documented behaviour (Variant "code") satisfies
+    # everything; the tree as it is (Variant "alias", finding E03-links-alias) satisfies everything but LinksComplete, which holds
+    # in the form Inv \/ KnownAlias -- and is REFUTED in its strict form (last entry of `wrong`)
+    chain_cfgs = [mcfg("memory", True, 2, 0, T_MODEL, True), mcfg("memory", True, 2, 3, 0, False)]
+    chain_reqs = R3 if q else R3 + ["r4"]
+    runs.append(("chain_code", chain_reqs, chain_cfgs, MENU_UP, 0, 2))
+    runs.append(("chain_alias_known", chain_reqs, chain_cfgs, MENU_UP, 0, 2))
     # the clauses bite: wrong models must be refuted, each by the clause it is meant to break
-    wrong = [("nodetach", {"InvNotCancelled", "InvDeadlineOK"}), ("shared_deadline", {"InvDeadlineOK"}), ("drop_first", {"InvLinksComplete"})]
+    wrong = [("nodetach", {"InvNotCancelled", "InvDeadlineOK"}), ("shared_deadline", {"InvDeadlineOK"}), ("drop_first", {"InvLinksComplete"}),
+             ("alias", {"InvLinksComplete"})]
 
     def good(arg):
         i, (label, reqs, cfgs, menu, maxnow, ma) = arg
         outs = ("ok",) if ma == 1 else ("ok", "transient")
-        return c.tlc_must_pass(SPEC, "ExportContextMC", cfg_text=MC_CFG % (ma, "code", FACTS), timeout=1500, coverage=(i == 0), heap="6g",
+        cfg_text = MC_CFG % (ma, "code", FACTS)
+        if label == "chain_alias_known":
+            cfg_text = MC_CFG.replace("INVARIANT InvLinksComplete\n", "INVARIANT InvLinksCompleteOrKnown\n") % (ma, "alias", "")
+        return c.tlc_must_pass(SPEC, "ExportContextMC", cfg_text=cfg_text, timeout=1500, coverage=(i == 0), heap="6g",
                                workers=max(2, vlib.NCPU // 3), label="design_" + label,
                                files={"BatcherSplit.tla": SPLIT, "ExportContextParams.tla": params(reqs, cfgs, menu, maxnow, outs)})
 
     def bad(arg):
         variant, expect = arg
+        par = params(R2, runs[0][2], MENU3, 2)
+        if variant == "alias":
+            par = params(R3 + ["r4"], chain_cfgs[:1], MENU_UP[:2], 0)
         r = c.tlc(SPEC, "ExportContextMC", cfg_text=MC_CFG % (2, variant, ""), timeout=600, count=False, heap="2g", workers=2,
-                  files={"BatcherSplit.tla": SPLIT, "ExportContextParams.tla": params(R2, runs[0][2], MENU3, 2)}, label="wrong_" + variant)
+                  files={"BatcherSplit.tla": SPLIT, "ExportContextParams.tla": par}, label="wrong_" + variant)
         if not (r.error and r.error[0] == "invariant" and r.error[1] in expect):
             raise vlib.Inconclusive("wrong model variant %s was not refuted by %s: %s" % (variant, sorted(expect), r.error))
         return variant, r.error[1]
-    with ThreadPoolExecutor(max_workers=4) as ex:
+    with ThreadPoolExecutor(max_workers=8) as ex:
         fg = [ex.submit(good, a) for a in enumerate(runs)]
         fb = [ex.submit(bad, a) for a in wrong]
         for f in fg:
@@ -172,19 +205,33 @@ def plans(c):
     return p
 
 
+CHAIN_MENU = attrs((1, 2), ("chain", "chain", "span", "none"), (0, 2), ("no", "post"))
+
+
+def chain_plans():
+    T = T_MODEL
+    return [mcfg("memory", True, 2, 0, T, True), mcfg("memory", True, 2, 3, T, True), mcfg("memory", True, 3, 0, 0, False),
+            mcfg("wfr", True, 2, 0, T, False), mcfg("none", False, 0, 0, T, False), mcfg("memory", False, 0, 0, T, True)]
+
+
 def generate(c, num):
+    """num behaviours per configuration; the configurations are spread over a few TLC runs (-simulate draws the initial state,
+    i.e. the configuration, at random for every behaviour)"""
     reqs = ["r1", "r2", "r3", "r4"]
+    ngroups = c.pick(3, 8)
+    full = plans(c)
+    groups = [(full[i::ngroups], FULL_MENU) for i in range(ngroups)] + [(chain_plans(), CHAIN_MENU)]
 
     def one(arg):
-        k, cfg = arg
-        r = c.tlc(SPEC, "ExportContextGen", cfg_text=GEN_CFG, workers=1, simulate="num=%d" % num, depth=80, seed=c.seed * 101 + k,
-                  timeout=900, count=False, heap="2g", label="gen%02d_%s" % (k, cfg["queue"]),
-                  files={"BatcherSplit.tla": SPLIT, "ExportContextParams.tla": params(reqs, [cfg], FULL_MENU, 0, ("ok", "transient", "perm"))})
+        k, (cfgs, menu) = arg
+        r = c.tlc(SPEC, "ExportContextGen", cfg_text=GEN_CFG, workers=1, simulate="num=%d" % (num * len(cfgs)), depth=80, seed=c.seed * 101 + k,
+                  timeout=900, count=False, heap="2g", label="gen%02d" % k,
+                  files={"BatcherSplit.tla": SPLIT, "ExportContextParams.tla": params(reqs, cfgs, menu, 0, ("ok", "transient", "perm"))})
         if not r.ok:
             raise vlib.Inconclusive("script generator failed: %s %s" % (r.error, r.out[-1500:]))
         return r.printed
-    with ThreadPoolExecutor(max_workers=8) as ex:
-        res = list(ex.map(one, list(enumerate(plans(c)))))
+    with ThreadPoolExecutor(max_workers=9) as ex:
+        res = list(ex.map(one, list(enumerate(groups))))
     scripts, seen = [], set()
     for printed in res:
         for b in printed:
@@ -194,6 +241,38 @@ def generate(c, num):
             seen.add(key)
             scripts.append(to_script(b["cfg"], b["steps"], b["outs"], {}))
     return scripts
+
+
+DIRECTED_CFG = """SPECIFICATION GSpec
+CONSTANTS
+  MaxAttempts = 2
+  Variant = "alias"
+INVARIANT EmitDefect
+CHECK_DEADLOCK FALSE
+"""
+
+
+def directed(c):
+    """counterexamples of the design for the tree AS IT IS (Variant "alias": contextWithMergedLinks appends into a shared array):
+    TLC enumerates the generator spec exhaustively and prints only the behaviours in which LinksComplete breaks"""
+    menu = [dict(n=1, sc="chain", dl=0, cancel="no", up=UP), dict(n=1, sc="span", dl=0, cancel="no", up=[])]
+    cfgs = [mcfg("memory", True, 2, 0, T_MODEL, True), mcfg("memory", True, 2, 3, 0, True)]
+    if not c.quick():
+        menu.append(dict(n=2, sc="unsampled", dl=0, cancel="no", up=[]))
+        cfgs.append(mcfg("wfr", True, 2, 0, 0, True))
+    r = c.tlc(SPEC, "ExportContextGen", cfg_text=DIRECTED_CFG, timeout=900, heap="4g", workers=1, count=False, label="gen_directed_alias",
+              files={"BatcherSplit.tla": SPLIT, "ExportContextParams.tla": params(["r1", "r2", "r3", "r4"], cfgs, menu, 0)})
+    if not r.ok:
+        raise vlib.Inconclusive("directed generator failed: %s %s" % (r.error, r.out[-1500:]))
+    out, seen = [], set()
+    for b in r.printed:
+        key = json.dumps([b["cfg"], b["steps"], b["outs"]], sort_keys=True)
+        if key not in seen:
+            seen.add(key)
+            out.append(to_script(b["cfg"], b["steps"], b["outs"], {}))
+    if not out:
+        raise vlib.Inconclusive("the model of the tree as it is (Variant alias) yields no behaviour that breaks LinksComplete")
+    return out
 
 
 def to_script(mc, steps, outs, drv):
@@ -215,6 +294,12 @@ def variants(scripts, rng):
     out = []
     for s in scripts:
         out.append(s)
+        if any(x.get("sc") == "chain" for x in s["steps"]):
+            # contexts of an upstream batch: the no-op tracer only (with a recording tracer the queue gives every request a
+            # span of its own, which then stands for the request)
+            if s["cfg"]["batch"] and rng.random() < 0.3:
+                out.append(dict(s, cfg=dict(s["cfg"], legacy=True)))
+            continue
         x = rng.random()
         if x < 0.45:
             out.append(dict(s, cfg=dict(s["cfg"], tracer="sdk")))
@@ -330,7 +415,7 @@ def fmt(s):
 
     def st(x):
         if x["op"] == "send":
-            return "send %s(n=%d,%s,dl=%s,cancel=%s)" % (x["r"], x["n"], x["sc"], x["dl"], x["cancel"])
+            return "send %s(n=%d,%s,dl=%s,cancel=%s)" % (x["r"], x["n"], x["sc"] + ("[%s]" % ",".join(x["up"]) if x.get("up") else ""), x["dl"], x["cancel"])
         return x["op"] + (" " + x["r"] if x.get("r") else "")
     cf = s["cfg"]
     return "%s | outs=%s | queue=%s batch=%s timeout_ms=%d retry=%s tracer=%s legacy=%s" % (
@@ -348,9 +433,17 @@ def describe(v):
         d["timeout"], cc["err"], d["queue"])
 
 
+KNOWN_ALIAS = ("E03|links-alias|a batch that holds a request whose context carried the links of an upstream batch has the upstream links "
+               "intact but the links registered after them lost or replaced (contextWithMergedLinks appends into the shared array)")
+
+
 def signature(v, s):
     """narrow signature of a clause verdict: clause + configuration class + what is wrong (no times)"""
     cc = v["detail"]["c"]
+    chain = {x["r"]: x["up"] for x in s["steps"] if x.get("sc") == "chain"}
+    if (v["clause"] in ("LinksComplete", "LinksSound") and len(chain) >= 2 and s["cfg"]["tracer"] == "noop"
+            and any(i[0] in chain and cc["links"][:len(chain[i[0]])] == chain[i[0]] for i in cc["items"])):
+        return KNOWN_ALIAS
     if v["clause"] == "TimeoutValidate":
         return "E03|TimeoutValidate|t=%s" % v["detail"]["timeout"]
     contrib = sorted({i[0] for i in cc["items"]})
@@ -368,7 +461,11 @@ def run(c):
         rp = json.load(open(c.replay))["replay"]
         scripts = [dict(rp["script"], id="replay")]
     else:
-        scripts = variants(generate(c, c.pick(25, 300)), c.rng)
+        with ThreadPoolExecutor(max_workers=2) as ex:
+            fd, fg = ex.submit(directed, c), ex.submit(generate, c, c.pick(16, 300))
+            dscripts, gscripts = fd.result(), fg.result()
+        c.extra["directed_scripts_from_design_counterexamples"] = len(dscripts)
+        scripts = variants(dscripts + gscripts, c.rng)
     c.log("%d scripts" % len(scripts))
     traces = execute_all(c, binp, scripts, "main")
     if not traces:
@@ -382,26 +479,27 @@ def run(c):
     c.extra["export_attempts_observed"] = ncalls
     c.extra["merged_batches_observed"] = sum(sum(1 for l in ls if '"ev":"exp"' in l and len(json.loads(l)["c"]["links"]) >= 2) for ls in traces.values())
     c.extra["retry_attempts_observed"] = ncalls - sum(len({json.dumps(json.loads(l)["c"]["items"]) for l in ls if '"ev":"exp"' in l}) for ls in traces.values())
-    reported = tried = 0
-    for sid in sorted(viol, key=lambda x: int(x[1:]) if x[1:].isdigit() else 0):
-        if reported >= 8 or tried >= 24:
-            break
-        tried += 1
+    # a clause verdict must reproduce when the script runs ALONE (one after the other, one driver process) before it is reported
+    cand = sorted(viol, key=lambda x: int(x[1:]) if x[1:].isdigit() else 0)[:24]
+    v2 = {}
+    if cand:
+        again = [dict(byid[sid], id="c" + sid) for sid in cand]
+        t2 = execute(c, binp, again, "confirm", nproc=1, par=1)
+        v2, _, _ = validate(c, {k: ls for k, ls in t2.items() if ended(ls)}, "confirm")
+    reported = 0
+    for sid in cand:
         s = byid[sid]
-        # re-confirm alone (nothing here depends on timing bounds, but a verdict must reproduce before it is reported)
-        again = dict(s, id="confirm")
-        t2 = execute(c, binp, [again], "confirm%d" % tried, nproc=1, par=1)
-        if not ended(t2["confirm"]):
-            continue
-        v2, _, _ = validate(c, t2, "confirm%d" % tried)
         for clause, v in viol[sid].items():
-            if clause not in v2.get("confirm", {}):
+            if clause not in v2.get("c" + sid, {}):
                 c.extra["unconfirmed"] = c.extra.get("unconfirmed", 0) + 1
                 continue
-            c.violation("%s; script: %s" % (describe(v), fmt(s)), signature=signature(v, s),
-                        replay_obj=dict(script={k: s[k] for k in ("cfg", "steps", "outs", "model")}, clause=clause,
-                                        trace=[json.loads(l) for l in traces[sid]]))
-            reported += 1
+            if reported >= 8:
+                continue
+            if c.violation("%s; script: %s" % (describe(v), fmt(s)), signature=signature(v, s),
+                           replay_obj=dict(script={k: s[k] for k in ("cfg", "steps", "outs", "model")}, clause=clause,
+                                           trace=[json.loads(l) for l in traces[sid]])):
+                reported += 1
+    c.extra["scripts_with_clause_verdicts"] = len(viol)
     # scripts the clauses accept but the implementation-shaped model cannot explain: model drift
     drift = [sid for sid in traces if sid not in expl and sid not in viol]
     for sid in drift[:5]:
